@@ -84,7 +84,7 @@ PROPS = {
                    "artifact, strategy and pre-existing workspace. Tied to the code by checking out over generated "
                    "pre-existing states (absent, correct/other/dangling/foreign links, equal/different files, "
                    "dir-for-file, file-for-dir, extra files) and evaluating `preserved` in Coq on the observed "
-                   "before/after trees, also on failing runs.",
+                   "before/after trees, also on failing runs. Command level: C06_command_frame, C06_command_obstructed_fails (an entry in the way of any output of any stage in scope fails the whole command, wherever the stage comes among the targets).",
         level_note="The model is functional: on failure it returns no state; 'left intact on failure' is what the "
                    "correspondence run observes (spec 4 on failing runs). O_EXCL on the copy target is a source fact.",
         assumptions=["no symlinked directories on artifact paths"],
@@ -111,7 +111,7 @@ PROPS = {
                    "the model of checkoutFile/checkoutDir: a copy checkout that succeeds placed only bytes hashing to the "
                    "recorded checksums; a corrupted file object reachable through the manifests makes it fail. Tied to "
                    "the code by damaging a reachable file object (flip first/middle/last byte, truncate, append) and "
-                   "running `dud checkout --copy`.",
+                   "running `dud checkout --copy`. Command level (StageLiftProofs): C19_command_success_verified, C19_command_corrupt_fails - success of `dud checkout --copy` over all targets, outputs and upstream stages implies every file output hashes to its recorded checksum; one corrupted reachable object anywhere in scope makes the command fail.",
         level_note="Corruption of manifest objects is outside the property (files only).",
         assumptions=[],
     ),
@@ -341,7 +341,7 @@ PROPS = {
                    "EVERY mutating system call of 10 commit scenarios fail in turn (EIO/ENOSPC/EACCES, ptrace) and by "
                    "un-committable entries (foreign link, FIFO, dangling cache link) at every position of a tree; "
                    "then the cause is removed and the commit retried: no loss, unlocked, non-zero exit, stage files "
-                   "load, retry succeeds and equals the undisturbed final state.",
+                   "load, retry succeeds and equals the undisturbed final state. Command level: C04_command_missing_output_fails.",
         level_note="The release of the lock file itself is not made to fail. A failing call has no partial effect.",
         assumptions=["a failing system call has no partial effect", "the injected error is transient (gone at the retry)"],
     ),
